@@ -143,7 +143,9 @@ def prop(spec, rec):
                 require(not lead.any(), "shifted_%s_leading_zero" % name, lambda: "station %s: first %d columns %r" % (sid, k, lead))
                 require(np.array_equal(rest, bb), "shifted_%s_equal_base" % name, lambda: "station %s %s shifted by %d: %r, base %r" % (sid, name, k, rest, bb))
         require({kk: ev.energy_delivered for kk, ev in hs.evs.items()} == e0, "shifted_energies", "energies differ after a time shift")
-        require([(a, t - k, c, d) for (t, a, c, d) in [(e[0], e[1], e[2], e[3]) for e in [sc.event_key(x) for x in hs.sim.event_history]]] == [(e[1], e[0], e[2], e[3]) for e in [sc.event_key(x) for x in base.sim.event_history]], "shifted_event_history", "event history is not the base history shifted by k")
+        shifted_ev = sorted((e[0] - k, e[1], e[2], e[3]) for e in (sc.event_key(x) for x in hs.sim.event_history))
+        base_ev = sorted(sc.event_key(x) for x in base.sim.event_history)
+        require(shifted_ev == base_ev, "shifted_event_history", lambda: "event history is not the base history shifted by %d: %r vs %r" % (k, shifted_ev, base_ev))
         labels.add("shifted")
 
     n = len(m.station_ids)
